@@ -302,6 +302,45 @@ def huge_bond_case(ctx, idx, rng):
     _close(ctx, 'huge.blocks-reassemble-expectation-value', val, np.vdot(vp, mH @ vp), nH * np_ ** 2, dict(detail, cut=cut))
 
 
+def wide_operator_case(ctx, idx, rng):
+    """Operators with WIDE bonds (64..130) on short chains with small states, and every combination of real and complex operands (real states with a complex
+    operator whose wide bond sits at the last site, complex bra with a real ket, ...): work arrays allocated from the dtypes of SOME of the operands,
+    bond-size thresholds of blocked contractions. Dense reach (L = 2, 3; d = 2, 3)."""
+    L = int(rng.choice([2, 3]))
+    d = int(rng.choice([2, 2, 3]))
+    qd = np.zeros(d, dtype=int)
+    Dw = [1] + [int(rng.integers(64, 131)) if rng.random() < 0.7 else int(rng.integers(2, 40)) for _ in range(L - 1)] + [1]
+    if max(Dw) < 64:
+        Dw[-2] = int(rng.integers(64, 131))
+    kinds = [('real', 'real', 'complex'), ('real', 'real', 'complex'), ('complex', 'real', 'real'), ('real', 'complex', 'complex'), ('real', 'real', 'real'),
+             ('complex', 'complex', 'complex'), ('real', 'real', 'complex-last-site-only')][idx % 7]
+    def tensors(shape_list, kind):
+        out = []
+        for j, sh in enumerate(shape_list):
+            a = rng.normal(size=sh)
+            if kind == 'complex' or (kind == 'complex-last-site-only' and j == len(shape_list) - 1):
+                a = a + 1j * rng.normal(size=sh)
+            out.append(a / np.sqrt(max(sh[-2], 1)))
+        return out
+    H = ptn.MPO(qd, [np.zeros(D, dtype=int) for D in Dw], fill='postpone')
+    H.A = tensors([(d, d, Dw[i], Dw[i + 1]) for i in range(L)], kinds[2])
+    Dp = [1] + [int(rng.integers(1, 5)) for _ in range(L - 1)] + [1]
+    Dc = [1] + [int(rng.integers(1, 5)) for _ in range(L - 1)] + [1]
+    psi = ptn.MPS(qd, [np.zeros(D, dtype=int) for D in Dp], fill='postpone')
+    psi.A = tensors([(d, Dp[i], Dp[i + 1]) for i in range(L)], kinds[1])
+    chi = ptn.MPS(qd, [np.zeros(D, dtype=int) for D in Dc], fill='postpone')
+    chi.A = tensors([(d, Dc[i], Dc[i + 1]) for i in range(L)], kinds[0])
+    vp, vc, mH = refs.dense_state(psi.A), refs.dense_state(chi.A), refs.dense_operator(H.A)
+    ts = lambda T: float(np.prod([max(np.linalg.norm(a), 1e-300) for a in T.A]))
+    np_, nc, nH = ts(psi), ts(chi), ts(H)
+    ctx.case(('wide-operator-bonds', f'L{L}', f'd{d}', 'bra-%s/ket-%s/op-%s' % kinds), sample={'L': L, 'd': d, 'mpo_bond_dims': Dw, 'dtypes(bra, ket, operator)': kinds})
+    detail = {'L': L, 'd': d, 'mpo_bond_dims': Dw, 'kinds': kinds, 'psi': psi.A, 'chi': chi.A}
+    with monitor.write_protected(psi, chi, H):
+        _close(ctx, 'wide.operator_average', ptn.operator_average(psi, H), np.vdot(vp, mH @ vp), nH * np_ ** 2, detail)
+        _close(ctx, 'wide.operator_inner_product', ptn.operator_inner_product(chi, H, psi), np.vdot(vc, mH @ vp), nH * np_ * nc, detail)
+        _close(ctx, 'wide.vdot', ptn.vdot(chi, psi), np.vdot(vc, vp), np_ * nc, detail)
+
+
 def steps_case(ctx, idx, rng):
     import pytenet.operation as po
     d = int(rng.integers(1, 4))
@@ -492,6 +531,7 @@ SPEC = {
         Workload('bond-gauge', bond_gauge_case, quick=300, thorough=30000),
         Workload('long-chain', long_chain_case, quick=40, thorough=3000),
         Workload('huge-bonds', huge_bond_case, quick=8, thorough=320),
+        Workload('wide-operator-bonds', wide_operator_case, quick=70, thorough=7000),
         Workload('suite-soak', soak_case, quick=0, thorough=1, shardable=False),
         Workload('steps', steps_case, quick=300, thorough=36000),
         Workload('projection', projection_case, quick=250, thorough=24000),
